@@ -16,6 +16,10 @@ mod toy;
 mod record;
 mod codec;
 mod taproot;
+mod lifecycle;
+
+#[global_allocator]
+static ALLOC: lifecycle::SpyAlloc = lifecycle::SpyAlloc;
 
 use std::collections::BTreeMap;
 use std::io::{BufRead, Write};
@@ -287,6 +291,10 @@ fn cmd_run(args: &[String]) -> i32 {
     0
 }
 
+fn lifecycle_one<C: Suite>(seed: u64, rounds: u64, f: &mut dyn Write) -> u64 {
+    lifecycle::run::<C>(seed, rounds, f)
+}
+
 fn codec_one<C: Suite>(seed: u64, heavy: bool, f: &mut dyn Write) -> (u64, u64) {
     codec::run::<C>(seed, heavy, f)
 }
@@ -438,6 +446,18 @@ fn main() {
         Some("record") => record::cmd_record(&args[2..]),
         Some("run") => cmd_run(&args[2..]),
         Some("codec") => cmd_codec(&args[2..]),
+        Some("lifecycle") => {
+            let a = &args[2..];
+            let suite = arg_val(a, "--suite").unwrap_or_else(|| "ed25519".into());
+            let seed: u64 = arg_val(a, "--seed").and_then(|s| s.parse().ok()).unwrap_or(1);
+            let rounds: u64 = arg_val(a, "--rounds").and_then(|s| s.parse().ok()).unwrap_or(5);
+            let out = arg_val(a, "--events").expect("--events");
+            let mut f = std::io::BufWriter::new(std::fs::File::create(out).expect("events file"));
+            let k = with_suite!(suite.as_str(), lifecycle_one(seed, rounds, &mut f));
+            let _ = f.flush();
+            println!("SUMMARY {}", json!({"events": k}));
+            0
+        }
         Some("taproot") => {
             let a = &args[2..];
             let seed: u64 = arg_val(a, "--seed").and_then(|s| s.parse().ok()).unwrap_or(1);
